@@ -18,6 +18,8 @@ def run(ctx, F, cg):
     for p, r in sorted(F.fns.items()):
         if not p.startswith(GS + "::") or "{closure" in p.split(GS + "::", 1)[1].split("::")[0]:
             continue
+        if not any(c.rsplit("::", 1)[-1] == "last_mut" for c in r["calls"]):
+            continue
         m = F.mir(p)
         if m is None:
             continue
@@ -46,8 +48,10 @@ def run(ctx, F, cg):
     # ---- R07b ------------------------------------------------------------------------------------------
     nb = 0
     for p, r in sorted(F.fns.items()):
+        if not any(x.endswith("GraphStore.nodes") for x in r["r"]) or not any(c.rsplit("::", 1)[-1] in ("flatten", "flat_map") for c in r["calls"]):
+            continue
         m = F.mir(p)
-        if m is None or not any(x.endswith("GraphStore.nodes") for x in r["r"]):
+        if m is None:
             continue
         b = Body(m, r)
         for c in b.calls():
@@ -65,8 +69,9 @@ def run(ctx, F, cg):
     ctx.saw_fn(dn["path"])
     pops = [c for c in b.calls() if c.path.rsplit("::", 1)[-1] in ("pop", "remove", "swap_remove", "truncate") and "node::Node" in c.full]
     clears = [c for c in b.calls() if c.path.rsplit("::", 1)[-1] in ("clear", "take", "drain", "replace") and "node::Node" in c.full]
-    if clears and not pops:
-        ctx.ok("R07c", "delete_node|chain-emptied", "version chain emptied with %s" % clears[0].path.rsplit("::", 1)[-1])
+    oks = [i for i, j, pl, rv, line, exp in b.stmts() if pl[0] == 0 and not pl[1] and rv[0] == "agg" and rv[1].endswith("Result::Ok")]
+    if clears and all(b.must_pass(0, o, {c.bb for c in clears}) for o in oks):
+        ctx.ok("R07c", "delete_node|chain-emptied", "version chain emptied with %s on every path to Ok" % clears[0].path.rsplit("::", 1)[-1])
     elif pops:
         ctx.violation("R07c", "delete_node|pops-one-version", where(dn, pops[0].line), "delete_node removes only the newest version (%s): after SET at version v2 and DELETE, get_node still finds the v1 entry, and the recycled id inherits it" % pops[0].path.rsplit("::", 1)[-1])
     else:
